@@ -62,7 +62,12 @@ Definition g_score_terms (gi : ginput) (s : state) : list Z :=
    then [o_f_activation o * obj_activation inp s] else []) ++
   (if 0 <? o_f_travel o then [o_f_travel o * obj_travel_duration inp s] else []) ++
   (if 0 <? o_f_vehicles_duration o then [o_f_vehicles_duration o * obj_vehicles_duration inp s] else []) ++
-  (if 0 <? o_f_unplanned o then [o_f_unplanned o * sumZ (map (top_penalty gi) (st_unplanned s))] else []).
+  (if 0 <? o_f_unplanned o then [o_f_unplanned o * sumZ (map (top_penalty gi) (st_unplanned s))] else []) ++
+  (* the terms that read routes only are the engine's *)
+  (if (0 <? o_f_early o) && has_early inp then [o_f_early o * obj_early inp s] else []) ++
+  (if (0 <? o_f_late o) && has_late inp then [o_f_late o * obj_late inp s] else []) ++
+  (if (0 <? o_f_min_stops o) && has_min_stops inp then [o_f_min_stops o * obj_min_stops inp s] else []) ++
+  (if 0 <? o_f_stop_balance o then [o_f_stop_balance o * obj_stop_balance inp s] else []).
 
 Definition g_refresh (gi : ginput) (s : state) : state :=
   let t := g_score_terms gi s in
